@@ -8,6 +8,7 @@ import sys
 sys.path.insert(0, os.path.dirname(os.path.abspath(__file__)))
 import vcheck as V  # noqa: E402
 from vcheck import Ctx, ToolError, log  # noqa: E402
+import p_prover  # noqa: E402
 
 TV_ASSUME = [
     "TLC evaluates the TLA+ reference semantics (spec/Values, PropHT, Sigma0, MiniGringo) correctly",
@@ -376,7 +377,7 @@ def run_C07(ctx):
     return V.finish(ctx, "translation_validation", coverage, violations, TV_ASSUME)
 
 
-RUNNERS = {"C01": run_C01, "C08": run_C08, "C05": run_C05, "C17": run_C17, "C07": run_C07}
+RUNNERS = {"C10": p_prover.run_C10, "C01": run_C01, "C08": run_C08, "C05": run_C05, "C17": run_C17, "C07": run_C07}
 
 
 def main():
